@@ -122,6 +122,43 @@ fn real_main() -> i32 {
                 let _ = std::fs::write(out.join(format!("{}.go", c.name)), text);
             }
         }
+        "gen-sample" => {
+            // debugging aid: verif gen-sample <n> [seed] [--show] [--nodes N] : generate, compile, interpret
+            let n: u64 = args.get(2).and_then(|s| s.parse().ok()).unwrap_or(20);
+            let seed: u64 = args.get(3).and_then(|s| s.parse().ok()).unwrap_or(1);
+            let show = args.iter().any(|a| a == "--show");
+            let nodes: u32 = args.iter().position(|a| a == "--nodes").and_then(|i| args.get(i + 1)).and_then(|s| s.parse().ok()).unwrap_or(60);
+            let ctx = verif::driver::Ctx::new("sample", Tier::Quick, seed);
+            let mut stats: std::collections::BTreeMap<String, u64> = Default::default();
+            for i in 0..n {
+                let mut bytes = vec![0u8; 400];
+                let mut x = verif::util::mix(seed, i);
+                for b in bytes.iter_mut() {
+                    x = verif::util::splitmix(x);
+                    *b = (x >> 32) as u8;
+                }
+                let mut d = verif::util::Dec::new(&bytes);
+                let mut gates = verif::gen::build::NoGates;
+                let p = verif::gen::build::gen_program(&mut d, verif::gen::build::GenCfg::full(nodes), &mut gates);
+                let text = verif::gen::render::render(&p);
+                let r = verif::goml::compile_single(&ctx, &text);
+                let rs = verif::refsem::run(&p, 200_000);
+                let key = format!("{} / ref:{}", r.stage(), match &rs.end { Ok(e) => format!("{:?}", e), Err(m) => format!("discard({})", m) });
+                *stats.entry(key).or_insert(0) += 1;
+                let bad = !matches!(r, verif::goml::CompileRes::Ok(..));
+                if show || bad {
+                    println!("=== case {i}: stage={} labels={:?}", r.stage(), p.labels);
+                    if bad || show { println!("{text}"); }
+                    match &r {
+                        verif::goml::CompileRes::Err(e) => for m in verif::goml::diag_messages(e.diagnostics()) { println!("  {m}"); },
+                        verif::goml::CompileRes::Panic(pn) => println!("  PANIC {}:{} {}", pn.file, pn.line, pn.message),
+                        _ => {}
+                    }
+                    if show { println!("--- refsem: {:?}\n{}", rs.end, String::from_utf8_lossy(&rs.stdout)); }
+                }
+            }
+            for (k, v) in stats { println!("{v:>6}  {k}"); }
+        }
         "compile" => {
             // debugging aid: verif compile <file.gom | project dir> [--go]
             let p = PathBuf::from(args.get(2).unwrap_or_else(|| usage()));
